@@ -26,6 +26,7 @@
 # policies, either expressed or implied, of Matt Chaput.
 
 import copy
+import sys
 
 from whoosh import query
 from whoosh.compat import u
@@ -714,7 +715,13 @@ class PhrasePlugin(Plugin):
                     # We have a field but it doesn't have a format object,
                     # for some reason (it's self-parsing?), so use process_text
                     # to get the texts (we won't know the start/end chars)
-                    words = list(field.process_text(text, mode="query"))
+                    try:
+                        words = list(field.process_text(text, mode="query"))
+                    except Exception:
+                        # The field can't analyze text at all (e.g. BOOLEAN,
+                        # STORED): report it in-band like term_query() does
+                        e = sys.exc_info()[1]
+                        return attach(query.error_query(e), self)
                     char_ranges = [(None, None)] * len(words)
             else:
                 # We're parsing without a schema, so just use the default
